@@ -166,6 +166,8 @@ def read_other():
     with quiet():
         for _ in reader(path, 'utf-8', quiet=True):
             pass
+    from .bridge import process_event
+    process_event()     # ... and one other thing happens in the process (a refused call, a call with other options)
 
 
 class short_watchdog(object):
